@@ -1,4 +1,5 @@
 import Model.Relay
+import Model.Mx
 /-!
 # C11 — a relay reports success only for recipients the next hop accepted
 
@@ -360,6 +361,115 @@ theorem http_delivered_only_on_2xx (n : Nat) (o : HttpOut) (l : List Cls) (h : h
 
 theorem http_failure_is_typed (n : Nat) : httpAttempt n .refused = .raised .temp ∧ httpAttempt n .timeout = .raised .temp := by
   simp [httpAttempt]
+
+
+/-! ## MX relay: which host, and how resolver answers are classified -/
+
+section Mx
+open Slimta.Mx
+
+theorem insertRec_perm (r : Nat × Nat) (l : List (Nat × Nat)) : (insertRec r l).Perm (r :: l) := by
+  induction l with
+  | nil => simp [insertRec]
+  | cons x xs ih =>
+    simp only [insertRec]
+    split
+    · exact List.Perm.refl _
+    · exact (List.Perm.cons x ih).trans (List.Perm.swap r x xs)
+
+def SortedP (l : List (Nat × Nat)) : Prop := l.Pairwise (fun a b => a.1 ≤ b.1)
+
+theorem insertRec_sorted (r : Nat × Nat) (l : List (Nat × Nat)) (h : SortedP l) : SortedP (insertRec r l) := by
+  induction l with
+  | nil => simp [insertRec, SortedP]
+  | cons x xs ih =>
+    have hx : ∀ b ∈ xs, x.1 ≤ b.1 := (List.pairwise_cons.mp h).1
+    have hxs : SortedP xs := (List.pairwise_cons.mp h).2
+    simp only [insertRec]
+    split
+    · rename_i hgt
+      refine List.pairwise_cons.mpr ⟨?_, h⟩
+      intro b hb
+      rcases List.mem_cons.mp hb with rfl | hb
+      · omega
+      · have := hx b hb; omega
+    · rename_i hle
+      refine List.pairwise_cons.mpr ⟨?_, ih hxs⟩
+      intro b hb
+      have hb' := (insertRec_perm r xs).mem_iff.mp hb
+      rcases List.mem_cons.mp hb' with rfl | hb'
+      · omega
+      · exact hx b hb'
+
+theorem sortMx_aux (l acc : List (Nat × Nat)) (h : SortedP acc) :
+    (l.foldl (fun a r => insertRec r a) acc).Perm (l.reverse ++ acc) ∧ SortedP (l.foldl (fun a r => insertRec r a) acc) := by
+  induction l generalizing acc with
+  | nil => exact ⟨by simp, h⟩
+  | cons x xs ih =>
+    simp only [List.foldl_cons]
+    obtain ⟨hp, hs⟩ := ih (insertRec x acc) (insertRec_sorted x acc h)
+    refine ⟨?_, hs⟩
+    refine hp.trans ?_
+    simp only [List.reverse_cons, List.append_assoc, List.singleton_append]
+    exact List.Perm.append_left _ (insertRec_perm x acc)
+
+/-- The MX records are tried in order of priority: the list the relay keeps is a permutation of the
+    resolver's answer, sorted by priority. -/
+theorem sortMx_sorted_perm (l : List (Nat × Nat)) : (sortMx l).Perm l ∧ SortedP (sortMx l) := by
+  obtain ⟨hp, hs⟩ := sortMx_aux l [] (by simp [SortedP])
+  exact ⟨hp.trans (by simpa using List.reverse_perm l), hs⟩
+
+/-- **Unroutable domain = permanent failure**: neither MX nor A records (or an empty MX answer). -/
+theorem unroutable_is_permanent (mx : Ans (Nat × Nat)) (a : Ans Nat) (n : Nat)
+    (hmx : (match mx with | .noData | .notFound => True | _ => False))
+    (ha : (match a with | .noData | .notFound => True | _ => False)) :
+    route true mx a n = .permanent := by
+  cases mx <;> simp at hmx <;> cases a <;> simp at ha <;> simp [route, resolve]
+
+/-- **Resolver error = transient failure.** -/
+theorem resolver_error_is_transient (a : Ans Nat) (n : Nat) : route true .error a n = .transient := by
+  simp [route, resolve]
+
+theorem resolver_error_on_fallback_is_transient (mx : Ans (Nat × Nat)) (n : Nat)
+    (hmx : (match mx with | .noData | .notFound => True | _ => False)) : route true mx .error n = .transient := by
+  cases mx <;> simp at hmx <;> simp [route, resolve]
+
+/-- A recipient without a domain is a permanent failure, whatever the resolver would say. -/
+theorem no_domain_is_permanent (mx : Ans (Nat × Nat)) (a : Ans Nat) (n : Nat) : route false mx a n = .permanent := by
+  simp [route]
+
+/-- **With MX records the first attempt goes to a host of the best priority, and every host gets
+    its turn**: attempt `n` goes to the `(n mod k)`-th record of the sorted list. -/
+theorem mx_attempts_cycle (l : List (Nat × Nat)) (hne : l ≠ []) (a : Ans Nat) (n : Nat) :
+    ∃ r, (sortMx l)[n % (sortMx l).length]? = some r ∧ route true (.records l) a n = .deliverTo r.2 ∧ r ∈ l := by
+  obtain ⟨hp, _⟩ := sortMx_sorted_perm l
+  have hlen : (sortMx l).length = l.length := hp.length_eq
+  have hpos : 0 < (sortMx l).length := by rw [hlen]; exact List.length_pos_iff.mpr hne
+  have hlt : n % (sortMx l).length < (sortMx l).length := Nat.mod_lt _ hpos
+  refine ⟨(sortMx l)[n % (sortMx l).length], by simp [hlt], ?_, hp.mem_iff.mp (List.getElem_mem hlt)⟩
+  have hne2 : (sortMx l).isEmpty = false := by
+    cases hs : sortMx l with
+    | nil => rw [hs] at hpos; simp at hpos
+    | cons _ _ => rfl
+  simp [route, resolve, hne2, chooseMx, hlt]
+
+theorem mx_first_attempt_best (l : List (Nat × Nat)) (hne : l ≠ []) (a : Ans Nat) :
+    ∃ r, route true (.records l) a 0 = .deliverTo r.2 ∧ r ∈ l ∧ ∀ x ∈ l, r.1 ≤ x.1 := by
+  obtain ⟨r, hget, hroute, hmem⟩ := mx_attempts_cycle l hne a 0
+  obtain ⟨hp, hs⟩ := sortMx_sorted_perm l
+  refine ⟨r, hroute, hmem, fun x hx => ?_⟩
+  have hx' : x ∈ sortMx l := hp.mem_iff.mpr hx
+  simp only [Nat.zero_mod] at hget
+  cases hsl : sortMx l with
+  | nil => rw [hsl] at hx'; simp at hx'
+  | cons y ys =>
+    rw [hsl] at hget hx' hs
+    simp at hget; subst hget
+    rcases List.mem_cons.mp hx' with rfl | hx'
+    · exact Nat.le_refl _
+    · exact (List.pairwise_cons.mp hs).1 x hx'
+
+end Mx
 
 /-! Non-vacuity: scripts that meet the hypotheses, and a mixed outcome. -/
 example : clsOf (attempt {} { rcpts := [.code 250, .code 550, .code 250] }) 0 = some .ok := by decide
